@@ -20,6 +20,7 @@
 # THE SOFTWARE.
 
 import inspect
+import tokenize
 import ast
 from functools import update_wrapper, partial
 from weakref import WeakKeyDictionary, ref
@@ -164,7 +165,9 @@ def get_ast(func):
         return None
     try:
         rawsource = inspect.getsource(code)
-    except (OSError, IOError):
+    except (OSError, IOError, SyntaxError, tokenize.TokenError):
+        # no source, or the file the code claims to come from is not
+        # (or no longer) Python source
         return None
     source = inspect.cleandoc('\n' + rawsource)
     try:
